@@ -205,7 +205,7 @@ def check_c13(run):
     thorough = run.tier == "thorough"
     K = 60
     stats = [0, 0]
-    configs = [(1, True, 1)]
+    configs = [(1, True, 1), (2, False, 1)]
     if thorough:
         configs = [(1, True, None), (2, False, 2)]
 
@@ -234,7 +234,12 @@ def check_c13(run):
             # deadlock other than the C14 stall: nobody can move, some waiter has neither returned nor its result
             def dead(i):
                 S = bmc.states[i]
-                return z3.And(bmc.noenabled[i], z3.Or(*[z3.And(S.v["depth%d" % t] != 0, z3.Not(S.v["ready%d" % (t + 1)])) for t in range(nw)]))
+                lacking = z3.Or(*[z3.And(S.v["depth%d" % t] != 0, z3.Not(S.v["ready%d" % (t + 1)])) for t in range(nw)])
+                if bg:
+                    # the real background thread never finishes: "nobody can move because its bounded iterations are
+                    # used up" is an artefact of the bound, not a deadlock
+                    return z3.And(bmc.noenabled[i], lacking, S.v["depth%d" % (model.T - 1)] != 0)
+                return z3.And(bmc.noenabled[i], lacking)
             s = bmc._solver(1200000)
             for c in bmc.constraints:
                 s.add(c)
